@@ -1223,6 +1223,8 @@ def run(ctx):
             break
     ctx.cov["oracle_scenarios"] = n_dom
     found += estimator_table_check(ctx)
+    with np.errstate(all="ignore"):
+        found += stored_columns_check(ctx)
     if ctx.broken() and not found:
         extra = [gen_scenario(ctx.rng, ctx.tier, {"domain": True}) for _ in range(ctx.budget(150, 600))]
         for sc in extra:
@@ -1330,7 +1332,76 @@ def estimator_table_check(ctx):
     return found
 
 
+def stored_columns_check(ctx):
+    """over_time stores results by reference: a later variable of the same step must not rewrite a column already
+    stored (request orders over the big curvature keys, matter data), and the caller's table is left as it was;
+    every stored column equals a fresh per-step calculation of that key alone"""
+    import aurel
+    found = 0
+    N = (7, 6, 8)               # (the default 4th-order one-sided stencils need 6 points per axis)
+    p = {"Nx": N[0], "Ny": N[1], "Nz": N[2], "xmin": -0.5, "ymin": -0.4, "zmin": -0.6, "dx": 0.2, "dy": 0.2, "dz": 0.2}
+    fd = aurel.FiniteDifference(p, verbose=False)
+    x, y, z = fd.x, fd.y, fd.z
+    one = np.ones(N)
+
+    def step(k):
+        g = np.array([[1.5 + 0.1 * k + 0.2 * np.sin(x), 0.1 * np.cos(y), 0 * one], [0.1 * np.cos(y), 1.2 + 0.1 * np.sin(z), 0.05 * one],
+                      [0 * one, 0.05 * one, 1.4 + 0.1 * np.cos(x + y)]])
+        K = -0.3 * g * (1 + 0.1 * k)
+        return {"gammadown3": g, "Kdown3": K, "alpha": 1.2 + 0.1 * np.sin(y), "rho0": 1.0 + 0.2 * np.cos(z) + 0.1 * k,
+                "press": 0.3 + 0.05 * np.sin(x)}
+    steps = [step(k) for k in range(2)]
+    orders = [["st_Riemann_down4", "st_Weyl_down4"], ["st_Weyl_down4", "st_Riemann_down4"],
+              ["Tdown4", "Stressdown3_n", "anisotropic_press_down3_n", "Tdown4"], ["s_Gamma_udd3", "s_Gamma_udd3_bssnok", "s_Gamma_udd3"]]
+    for vars_ in orders:
+        vs = list(dict.fromkeys(vars_))
+        data = {"it": np.arange(2)}
+        for k in steps[0]:
+            data[k] = [np.array(st[k], copy=True) for st in steps]
+        try:
+            with quiet():
+                out = aurel.over_time(dict(data), fd, vars=vs, estimates=[], verbose=False, Lambda=0.2)
+        except Exception as ex:  # noqa
+            found += 1 if ctx.violation("over_time(vars=%s) raised %r" % (vs, ex), {"kind": "input", "check": "stored_columns"},
+                                        {"site": "stored-columns", "what": "raises"}) else 0
+            continue
+        for j in range(2):
+            # the reference: a fresh instance on the step's inputs asked for the same keys in the same order, each value
+            # COPIED at the moment it is returned (asking for a key alone could take another alternative: the Riemann-
+            # based and the E/B-based Weyl tensors only agree on solutions, which these made-up fields are not — a
+            # first version of this check compared with single requests and raised a false alarm of 51.6)
+            rel = aurel.AurelCore(fd, verbose=False, Lambda=0.2)
+            for k in steps[j]:
+                rel.data[k] = np.array(steps[j][k], copy=True)
+            rel.freeze_data()
+            wants = {}
+            with quiet():
+                for v in vs:
+                    wants[v] = np.array(rel[v], copy=True)
+            for v in vs:
+                want = wants[v]
+                got = np.asarray(out[v][j])
+                ctx.count("stored_columns_evaluations")
+                scale = max(1.0, float(np.max(np.abs(want))))
+                if got.shape != want.shape or not np.allclose(got, want, rtol=1e-9, atol=1e-9 * scale):
+                    found += 1 if ctx.violation(
+                        "over_time(vars=%s): the stored column %s of step %d differs by %.3g from the value a fresh instance "
+                        "returned for it in the same request order (copied when returned)"
+                        % (vs, v, j, float(np.max(np.abs(got - want))) if got.shape == want.shape else float("nan")),
+                        {"kind": "input", "check": "stored_columns", "vars": vs, "column": v, "step": j},
+                        {"site": "stored-columns", "column": v}) else 0
+            for k in steps[j]:
+                if not np.array_equal(data[k][j], steps[j][k]):
+                    found += 1 if ctx.violation("over_time(vars=%s) changed the caller's column %s" % (vs, k),
+                                                {"kind": "input", "check": "stored_columns"}, {"site": "stored-columns", "what": "input-modified"}) else 0
+    return found
+
+
 def replay(ctx, obj):
+    if obj.get("check") == "stored_columns":
+        n = stored_columns_check(ctx)
+        print("replay: %d violation(s) now" % n)
+        return 1 if n else 0
     if obj.get("check") == "estimator_table":
         n = estimator_table_check(ctx)
         print("replay: %d violation(s) now" % n)
